@@ -189,6 +189,27 @@ prop("C02", harness="h_exact",
                   "reference de Pina implementation is cross-validated against the brute force in the self-test of each run"])
 
 
+prop("C08", harness="h_exact",
+     quick=dict(shards=16, cases=400, env={"VERIF_MAXN": "20"},
+                extra_phases=[dict(shards=16, cases=12, env={"VERIF_MAXN": "150", "VERIF_MAXM": "420"}, seed_offset=500)]),
+     thorough=dict(shards=16, cases=4000, env={"VERIF_MAXN": "36"},
+                   extra_phases=[dict(shards=16, cases=150, env={"VERIF_MAXN": "400", "VERIF_MAXM": "1400"}, seed_offset=500)]),
+     rule="Metamorphic, oracle-free for large graphs: a generated graph G and a generated transform T (vertex+edge-order permutation, isolated "
+          "vertices, pendant trees, a bridge between two components, disjoint union with a second generated graph H, subdivision of edges with "
+          "w=w1+w2 exactly, scaling by 2^j). Oracle: all six exact variants/backends (signed, fvs, iso and their _tbb forms on real libtbb with "
+          "generated worker limits) emit a valid basis on G, return the emitted weight and agree with each other (and with the reference optimum "
+          "when n<=24); value(T(G)) == value(G) / value(G)+value(H) / value(G)*2^j. A second phase runs graphs with up to hundreds of vertices "
+          "(class 'large(n>60)', 'dimension>=100'). Non-trivial = cycle-space dimension >= 3 and the transform is not 'isolated vertices'.",
+     assumptions=["exact weight domain (int: all sums < 2^30)", "transforms are pure functions of (graph, recipe) so the case shrinks and replays"])
+prop("C09", harness="h_exact",
+     quick=dict(shards=16, cases=3000, env={"VERIF_MAXN": "12"}),
+     thorough=dict(shards=16, cases=30000, env={"VERIF_MAXN": "14"}),
+     rule="Generated simple graphs with INEXACT double weights in [1e-3,1e3] (decimal palettes 0.1..1.1, multiples of 0.1 / 0.01, scaled decimals, "
+          "k/7, log-uniform random doubles) x all six exact variants; oracle in exact rational arithmetic (__int128 scaled by 2^62): C01 validity, "
+          "|returned - exact sum| <= 1e-9*sum, exact sum <= (1+1e-9)*exact optimum (brute force / de Pina over the rationals the doubles denote). "
+          "Input classes: 'near-tie' (for some ordered pair two different last edges give routes whose exact lengths agree within a relative 1e-12, exact ties included) / 'tie-free'. Non-trivial = "
+          "dimension>=1 and near-tie.",
+     assumptions=["weights are doubles >= 2^-10 so every weight is an exact multiple of 2^-62"])
 prop("C05", harness="h_approx",
      quick=dict(shards=16, cases=3000, env={"VERIF_MAXN": "16"}),
      thorough=dict(shards=16, cases=20000, env={"VERIF_MAXN": "40"}),
@@ -561,6 +582,14 @@ def run_rc_property(pid, tier, conf=None):
     with ThreadPoolExecutor(max_workers=par) as ex:
         futs = [ex.submit(run_shard, binp, pid, seed * 1000 + i, cases, env, excludes, workdir, i, timeout,
                           conf.get("max_size", 100), launcher) for i in range(shards)]
+        base_idx = shards
+        for ph in conf.get("extra_phases", []):
+            penv = dict(env)
+            penv.update(ph.get("env", {}))
+            for i in range(ph["shards"]):
+                futs.append(ex.submit(run_shard, binp, pid, seed * 1000 + ph.get("seed_offset", 500) + i, ph["cases"], penv, excludes,
+                                      workdir, base_idx + i, ph.get("timeout", timeout), conf.get("max_size", 100), launcher))
+            base_idx += ph["shards"]
         results = [f.result() for f in futs]
     fz = conf.get("fuzz")
     fuzz_execs = 0
